@@ -161,6 +161,9 @@ func Subst(es []TarEntry, dst string) []TarEntry {
 	base := dst[strings.LastIndex(dst, "/")+1:]
 	out := make([]TarEntry, len(es))
 	for i, e := range es {
+		// {BU}: the base name in upper case - another name on a file system that tells case apart
+		e.Name = strings.ReplaceAll(e.Name, "{BU}", strings.ToUpper(base))
+		e.Link = strings.ReplaceAll(e.Link, "{BU}", strings.ToUpper(base))
 		e.Name = strings.ReplaceAll(strings.ReplaceAll(e.Name, "{B}", base), "{D}", dst)
 		e.Link = strings.ReplaceAll(strings.ReplaceAll(e.Link, "{B}", base), "{D}", dst)
 		out[i] = e
@@ -180,12 +183,12 @@ func HostileAlphabet() []TarEntry {
 	}
 	return []TarEntry{
 		f("a"), f("a/b"), f("l"), f("m"), f("l/x"), f("d/l/x"), f("m/secret"),
-		f("../x"), f("../{B}-evil/x"), f("a/../../{B}-evil/y"), f("/etc/shadow"), f("../{B}x/z"), f(".."), f("../secret"),
+		f("../x"), f("../{B}-evil/x"), f("a/../../{B}-evil/y"), f("/etc/shadow"), f("../{B}x/z"), f(".."), f("../secret"), f("../{BU}/keep"),
 		d("a"), d("d/"), d("l"), d("../sib"), d("../{B}-evil"), d("./"), d("l/sub"), d("../{B}x/"),
 		l("l", ".."), l("l", "../secret"), l("l", "/etc/shadow"), l("l", "../{B}-evil/x"), l("l", "../{B}-evil"),
 		l("d/l", ".."), l("m", "d/l/../secret"), l("m", "l/secret"), l("l", "a"), l("l", "."), l("m", "l"),
 		l("l", "../{B}/a"), l("l", "{D}/a"), l("l", "../alink"), l("a/b", "../.."), l("a/b", "../../{B}-evil/x"),
-		l("m", "a/../../secret"), l("../esc", "a"), l("l", "d"), l("m", "../{B}x"),
+		l("m", "a/../../secret"), l("../esc", "a"), l("l", "d"), l("m", "../{B}x"), l("m", "../{BU}/keep"),
 		{Name: "h", Type: "hard", Link: "a", Mode: 0644, Mtime: 1500000003},
 		{Name: "h", Type: "hard", Link: "../secret", Mode: 0644, Mtime: 1500000003},
 		{Name: "p", Type: "fifo", Mode: 0644, Mtime: 1500000003},
@@ -196,7 +199,7 @@ func HostileAlphabet() []TarEntry {
 	}
 }
 
-var hostileSegs = []string{"a", "a", "b", "l", "l", "d", "m", "x", "..", "..", ".", "", "{B}", "{B}-evil", "{B}x", "secret", "sib", "etc", "shadow", "alink"}
+var hostileSegs = []string{"a", "a", "b", "l", "l", "d", "m", "x", "..", "..", ".", "", "{B}", "{B}-evil", "{B}x", "{BU}", "secret", "sib", "etc", "shadow", "alink"}
 var hostileOddSegs = []string{"é", "a b", "...", "-", strings.Repeat("n", 101), strings.Repeat("L", 256), "a\\b", "~", "*"}
 
 func hostilePath(r *fw.Rand, maxSegs int) string {
